@@ -425,6 +425,15 @@ def main(ctx):
                                      'all_nan_table': empty[0] if empty else '', 'error': err[:50]},
                           what='write/read of analysis conditions raised')
             continue
+        if r.get('mutated') or r.get('write2_error') or r.get('cnt2') != r.get('cnt'):
+            impl_bad += 1
+            ctx.violation('impl-violation', {'mesh': m},
+                          'write() leaves the conditions as they were; a second write gives the same file',
+                          {'mutated': r.get('mutated'), 'write2_error': r.get('write2_error')},
+                          'C03_cnt_roundtrip / oracle on implementation (object held by the caller)',
+                          found_input=True,
+                          signature={'oracle': 'rewrite', 'mutated': ','.join(r.get('mutated') or [])},
+                          what='write() modified the in-memory conditions or the second write differs')
         got = presc_of_dump(r['read'])
         sol_want = m.get('solution_type') or 'STATIC'
         if got != want or r['read']['solution_type'] != sol_want:
